@@ -14,7 +14,7 @@ RAPID = "property-based testing (pgregory.net/rapid) against a sorted-map refere
 
 add("C01", "TestC01", "exploration",
     dict(cases=40000, shards=8, extra=[dict(test="TestC01BigLeaves", shards=1), dict(test="TestC01Large", shards=9), dict(test="TestC01Regular", shards=4), dict(test="TestC01Sizes", shards=4), dict(test="TestC01IndependentReaders", shards=1)]),
-    dict(cases=600000, shards=16, timeout_s=3000, extra=[dict(test="TestC01BigLeaves", shards=1), dict(test="TestC01Large", shards=14), dict(test="TestC01Regular", shards=8, timeout_s=3000), dict(test="TestC01Sizes", shards=8, timeout_s=3000), dict(test="TestC01IndependentReaders", shards=1, timeout_s=3000)]),
+    dict(cases=600000, shards=16, timeout_s=3000, extra=[dict(test="TestC01BigLeaves", shards=1), dict(test="TestC01Large", shards=14), dict(test="TestC01Regular", shards=8, timeout_s=3000), dict(test="TestC01Sizes", shards=8, timeout_s=3000), dict(test="TestC01IndependentReaders", shards=1, timeout_s=3000)], fuzz=dict(target="FuzzC01", seconds=240)),
     "cases = one trie of 900000 keys with 300-byte values (270 MB of leaves: bit offsets beyond 2^31) + deterministic large shapes (70000-100000 keys: > 65535 nodes and leaves, 257 big nodes, short-table sizes 8-10, > 64 KiB of var-len values) + (key set from families K1..K7/Krand/Kshort) x (values nil|distinct|runs|aba|random|pairdup|const) x 14 encoders x 81 option structs x {fresh, Unmarshal(Marshal), proto round trip}; a case is non-trivial when it retains >= 2 keys and has a stored step, a key that is a prefix of another, or a byte >= 0x80; distinct = FNV-64 of the canonical case",
     "Generated-input search: every retained key of every generated trie is looked up with Get and GetID and compared with the model's retained-key rule computed on independently encoded values. Shapes are constructed so that 257-bit nodes, short nodes of each table size, long steps, prefix keys, the empty key and bytes >= 0x80 occur by design; the class histogram in the evidence shows how often. Not a proof: absence of counterexamples in the explored space.",
     "Trusted: the reference model and the independent value encodings in the harness. Not reached: > 10^5 keys, node ids near 2^31, 32-bit platforms.",
